@@ -376,7 +376,8 @@ def run(chk):
 
     # ------------------------------------------------------------------ D8 the documented meaning of the output range
     chk.rule("C11-D8.range", "copyGrid documents that an end of the output range outside of the outputs selects all remaining outputs: the statements before the destination is cleared are folded "
-                             "for 1 and 4 source outputs and ends from -7 to N+9; the end that reaches the copy constructors is the given one when 0 <= end <= N and N otherwise")
+                             "for 1 and 4 source outputs and ends from -7 to N+9; the end that reaches the copy constructors is the given one when 0 <= end <= N and N otherwise; a first output below 0 or beyond that end is rejected "
+                             "by a throw before the destination is touched")
     import sympy
     from tsg.peval import ArrayPEval
     from tsg.sym import NotClosedForm
@@ -396,6 +397,30 @@ def run(chk):
     if stop is None or "outputs_end" not in prm:
         raise AnalysisBroken("copyGrid: no statement that starts the copy / no outputs_end parameter")
     nrange, bad = 0, []
+    # the first output: a value below 0 or beyond the effective end must be rejected before the destination is touched (a negative begin otherwise takes the
+    # whole-range shortcut or indexes the values with a wrapped offset)
+    for N in (1, 4):
+        for ob in (-2, -1, 0, 1, N, N + 1):
+            for oe in (-1, 1, N):
+                def hookb(n, ev, N=N):
+                    if n.get("k") in ("CXXMemberCallExpr",) and short(callee(n) or "") == "getNumOutputs":
+                        return sympy.Integer(N)
+                    if n.get("k") == "BinaryOperator" and n.get("op") in ("==", "!=") and any(z.get("k") == "CXXThisExpr" for z in walk(n)):
+                        return sympy.false if n["op"] == "==" else sympy.true
+                    return None
+                pe = ArrayPEval(db)
+                pe.hook = hookb
+                env = {prm["outputs_end"]["did"]: sympy.Integer(oe), prm["outputs_begin"]["did"]: sympy.Integer(ob)}
+                try:
+                    r = pe.inplace(body[:stop], env, cg, 0)
+                    got = "throw" if (r is not None and r[0] == "throw") else "begin %s" % env[prm["outputs_begin"]["did"]]
+                except NotClosedForm as ex:
+                    got = "not folded (%s)" % ex
+                eff = oe if 0 <= oe <= N else N
+                want = "begin %d" % ob if 0 <= ob <= eff else "throw"
+                nrange += 1
+                if got != want:
+                    bad.append("N=%d begin=%d end=%d -> %s (expected: %s)" % (N, ob, oe, got, want))
     for N in (1, 4):
         for oe in (-7, -2, -1, 0, 1, N - 1, N, N + 1, N + 9):
             def hook(n, ev, N=N):
@@ -417,7 +442,76 @@ def run(chk):
             if got != want:
                 bad.append("N=%d end=%d -> %s (documented: %d)" % (N, oe, got, want))
     chk.ob("C11-D8.range", cg.name, "effective end of the output range", not bad, cg.where, "; ".join(bad[:3]) if bad else "%d (N, end) cases agree with the documentation" % nrange)
-    chk.floor("C11-D8.range", nrange, 18, "(outputs, end) cases")
+    chk.floor("C11-D8.range", nrange, 50, "(outputs, begin, end) cases")
+
+    # ------------------------------------------------------------------ D9 a moved-from object is a valid destination
+    chk.rule("C11-D9.moved", "an owning pointer member that the class never tests for null (it is set by every constructor and dereferenced or handed on unconditionally - the acceleration "
+                             "context) is valid again in the source after a move: the move operations are user-provided and re-seat the member of the source. With defaulted moves the "
+                             "member is null afterwards and the next make / copy / read into the moved-from object builds a grid around a null context")
+    rec = db.record(TSG)
+    tsgfns = [f for f in db.all_functions(["SparseGrids/TasmanianSparseGrid.cpp", "SparseGrids/TasmanianSparseGrid.hpp"]) if f.cls == TSG and not f.d.get("islambda")]
+    nmv = 0
+    for fld in rec["fields"]:
+        if not fld["t"].startswith("std::unique_ptr<") or fld.get("mutable"):
+            continue
+        m = fld["name"]
+        tested = False
+        used = False
+        for f in tsgfns:
+            for q in f.walk():
+                if q.get("k") == "MemberExpr" and short(q.get("field") or "") == m and strip(q.get("c", [None])[0] if q.get("c") else None) is not None and \
+                        (strip(q["c"][0]) or {}).get("k") == "CXXThisExpr" or (q.get("k") == "MemberExpr" and short(q.get("field") or "") == m and not q.get("c")):
+                    par = f.parent.get(q.get("id"))
+                    while par is not None and (par.get("k") in ("ImplicitCastExpr", "ParenExpr") or (par.get("k") == "MemberExpr" and par.get("fn"))):
+                        par = f.parent.get(par.get("id"))
+                    pk = (par or {}).get("k")
+                    pt = txt(par or {})
+                    if pk in ("UnaryOperator",) and (par or {}).get("op") == "!":
+                        tested = True
+                    elif pk in ("BinaryOperator", "CXXOperatorCallExpr") and (par or {}).get("op") in ("==", "!=") and "nullptr" in pt:
+                        tested = True
+                    elif pk in ("IfStmt", "ConditionalOperator") or (pk == "CXXMemberCallExpr" and short(callee(par) or "") == "operator bool"):
+                        tested = True
+                    elif pk == "CXXMemberCallExpr" and short(callee(par) or "") in ("get", "operator->", "operator*") or (pk == "CXXOperatorCallExpr" and (par or {}).get("op") in ("->", "*")):
+                        # base.get() == nullptr, !base.get(), (base.get()) ? a : b  are tests as well
+                        gp = f.parent.get(par.get("id"))
+                        while gp is not None and gp.get("k") in ("ImplicitCastExpr", "ParenExpr"):
+                            gp = f.parent.get(gp.get("id"))
+                        gk = (gp or {}).get("k")
+                        if (gk == "UnaryOperator" and gp.get("op") == "!") or (gk in ("BinaryOperator", "CXXOperatorCallExpr") and gp.get("op") in ("==", "!=")) or gk in ("IfStmt", "ConditionalOperator"):
+                            tested = True
+                        else:
+                            used = True
+        if tested or not used:
+            continue
+        ctors = [f for f in tsgfns if f.d.get("isctor")]
+        movers = [mm for mm in rec["methods"] if "&&" in mm["sig"] and "TasmanianSparseGrid" in mm["sig"] and (mm["name"].endswith("::operator=") or mm["name"].endswith("::TasmanianSparseGrid"))]
+        for mm in movers:
+            nmv += 1
+            body = [f for f in tsgfns if f.name == mm["name"] and f.sig == mm["sig"]]
+            if not body:
+                chk.ob("C11-D9.moved", mm["name"] + mm["sig"], "`%s` of the source is valid after the move" % m, False, "%s:%d" % (rec["file"], mm["l"]),
+                       "the move operation is defaulted: it leaves `%s` null, and no method of the class ever tests it" % m, "a user-provided move that re-seats the member of the source")
+                continue
+            f = body[0]
+            chk.saw(f)
+            src = f.params()[0]["did"]
+            reseat = False
+            for q in f.walk():
+                if q.get("k") == "MemberExpr" and short(q.get("field") or "") == m and any(z.get("k") == "DeclRefExpr" and z.get("did") == src for z in walk(q)):
+                    par = f.parent.get(q.get("id"))
+                    while par is not None and par.get("k") in ("ImplicitCastExpr", "ParenExpr"):
+                        par = f.parent.get(par.get("id"))
+                    if par is not None and ((par.get("k") in ("CXXOperatorCallExpr", "BinaryOperator") and par.get("op") == "=" and any(x is q for x in walk(par["c"][1 if par.get("k") == "CXXOperatorCallExpr" else 0]))) or
+                                            (par.get("k") == "CallExpr" and "swap" in (callee(par) or "")) or
+                                            (par.get("k") == "CXXMemberCallExpr" and short(callee(par) or "") in ("swap", "reset") and len(call_args(par)) >= 1)):
+                        reseat = True
+            # delegation to the move assignment
+            if not reseat and f.d.get("isctor"):
+                reseat = any(short(callee(c) or "") == "operator=" for c in f.calls()) and any(mm2["name"].endswith("::operator=") for mm2 in movers)
+            chk.ob("C11-D9.moved", f.key + f.sig, "`%s` of the source is valid after the move" % m, reseat, f.where,
+                   "" if reseat else "the member is moved out of the source and nothing is put back", "source.%s re-seated (swap / assignment)" % m)
+    chk.floor("C11-D9.moved", nmv, 2, "move operations x never-null owning members")
 
     return ("Static rule discharge on the copy constructors of the five grid classes, the base class and TasmanianSparseGrid::copyGrid: member-by-member coverage (each member initialised from the "
             "same member of the source), output-strided containers split with the requested range, deep copy of owning pointers and absence of shared pointers/references, the strip-splitting "
